@@ -64,6 +64,20 @@ def _apply(project_sources: dict, m: dict):
         from .udiff import apply_unified
 
         return apply_unified(project_sources, m["diff"])
+    if m.get("base"):
+        from .udiff import apply_unified
+
+        here = os.path.dirname(os.path.dirname(os.path.abspath(__file__)))
+        bp = os.path.join(here, "twins", m["base"], "patch.diff")
+        if not os.path.exists(bp):
+            return None
+        based = apply_unified(project_sources, open(bp).read())
+        if based is None:
+            return None
+        project_sources = {**project_sources, **based}
+        base_ov = dict(based)
+    else:
+        base_ov = {}
     rel = os.path.join(Project.PKG_DIR, m["file"])
     src = project_sources.get(rel)
     if src is None:
@@ -74,7 +88,7 @@ def _apply(project_sources: dict, m: dict):
         if (want is None and out.count(old) < 1) or (want is not None and out.count(old) != want):
             return None
         out = out.replace(old, new)
-    return {rel: out}
+    return {**base_ov, rel: out}
 
 
 def _run_one(args):
